@@ -107,6 +107,15 @@ func runC01(c *core.Ctx) {
 			c.Sample(map[string]interface{}{"config": cfg, "history_tail": rep.FinalLog, "events_received": rep.Received, "kernel_notifications": rep.RawSeen})
 		}
 	}
+	for i := 0; i < c.Pick(8, 30) && hangs < 2; i++ {
+		rng, ok := c.CaseRng(200000+i, "directed re-point then change")
+		if !ok {
+			continue
+		}
+		dir, done := caseDir(c, 200000+i)
+		c01Repoint(c, rng, dir)
+		done()
+	}
 	hs.mu.Lock()
 	multi := int64(0)
 	for k, v := range hs.readHist {
@@ -218,5 +227,71 @@ func c01Overflow(c *core.Ctx) {
 	}
 	if !found {
 		c.Violate("lost-event", "Create of an entry made after the overflow had been announced was never delivered", nil)
+	}
+}
+
+// c01Repoint: a watched path is replaced by another file while its old inode lives on (hard link,
+// open descriptor, or a symlink retargeted), the path is added again, and then the NEW file is
+// changed: those changes are changes to a watched path and must be reported.
+func c01Repoint(c *core.Ctx, rng interface{ Intn(int) int }, dir string) {
+	s, err := twin.NewSession(dir, []int{-1, 0, 16}[rng.Intn(3)])
+	if err != nil {
+		c.Broken(err.Error())
+		return
+	}
+	defer s.Close()
+	os.Chdir(s.Base)
+	rep := twin.Report{KeepGoing: true}
+	os.WriteFile("f", nil, 0o644)
+	os.WriteFile("g", nil, 0o644)
+	os.Symlink("f", "l")
+	path := "f"
+	how := rng.Intn(4)
+	if how == 3 {
+		path = "l"
+	}
+	if s.AddStrict(&rep, path) != nil {
+		return
+	}
+	if rng.Intn(2) == 0 {
+		s.Pause(true)
+	}
+	fd := -1
+	switch how {
+	case 0: // hard link keeps the old inode, rename-onto replaces the path
+		s.Link("f", "keep")
+		s.Rename("g", "f")
+	case 1: // open descriptor keeps it, unlink + recreate
+		fd, _ = s.Hold("f")
+		s.Unlink("f")
+		s.Creat("f")
+	case 2: // hard link, unlink + recreate
+		s.Link("f", "keep")
+		s.Unlink("f")
+		s.Creat("f")
+	case 3: // the symlink is retargeted
+		s.Unlink("l")
+		s.Symlink("g", "l")
+	}
+	if s.AddStrict(&rep, path) != nil {
+		return
+	}
+	target := map[bool]string{true: "g", false: "f"}[how == 3]
+	s.Write(target, 2)
+	s.Chmod(target, 0o600)
+	if fd >= 0 {
+		s.Release(fd)
+	}
+	s.Write(target, 1)
+	s.Sync(&rep, false)
+	c.Eval(1)
+	c.Count("directed_repoint_cases", 1)
+	c.Count("events_received", int64(rep.Received))
+	c.Count("windows_compared", int64(rep.Windows))
+	c.Distinct("repoint", how, rep.Received > 0)
+	for _, d := range rep.Diffs {
+		if len(d.Diff.Missing) > 0 {
+			c.Violate("lost-event", fmt.Sprintf("after re-adding a replaced path (variant %d) changes to the new file were not reported: missing %v; history %v", how, d.Diff.Missing, d.Log), d)
+		}
 	}
 }
